@@ -73,6 +73,8 @@ func (e *mEnv) seedVariant(v int) []byte {
 		return []byte("seed-1-seed-1-seed-1-seed-1-seed") // 32 bytes
 	case 2:
 		return []byte("seed-2-seed-2-seed-2-seed-2-seed")
+	case 3:
+		return []byte("seed-1-seed-1-seed-1-seed-1-seed") // same seed as variant 1, other metadata
 	}
 	return nil
 }
@@ -83,6 +85,8 @@ func (e *mEnv) metaVariant(v int) []byte {
 		return []byte("meta-1")
 	case 2:
 		return nil
+	case 3:
+		return []byte("meta-3")
 	}
 	return nil
 }
